@@ -525,7 +525,7 @@ class NF:
 
     def _global(self, name: str, sc: Scope) -> Poly:
         node = sc.mi.defs.get(name)
-        if isinstance(node, ast.Assign) and isinstance(node.value, (ast.Constant, ast.UnaryOp, ast.BinOp)):
+        if isinstance(node, (ast.Assign, ast.AnnAssign)) and isinstance(node.value, (ast.Constant, ast.UnaryOp, ast.BinOp)):
             try:
                 return self.poly(node.value, Scope(None, sc.mi), None)
             except Exception:
